@@ -336,12 +336,18 @@ C07 == [][C07Step]_vars
 
 (* C08: values stay in their declared ranges; a finished run has a         *)
 (* defined, finite score; chained stages never widen a range.               *)
+\* (used by C18: a temperature of zero acts as a temperature of zero, whatever value is carried)
+C18ZeroStep == (pc = "decide" /\ pc' # "decide" /\ kt.cls = "zero") =>
+                  ((Defined(new) /\ new < accCur) => rej' # rej)
+C18Zero == [][C18ZeroStep]_vars
+
 C08Range == \A i \in H(cfg) : InRange(cfg, i, val[i])
 C08Done == pc = "done" => Defined(cur)
 (* C04 (the part that concerns the optimiser): a parameter the crystal      *)
 (* family of the group does not leave free (declared range of width zero)  *)
 (* never moves, so the cell keeps the metric symmetry of its group.         *)
-C04Frozen == \A i \in H(cfg) : cfg.lo[i] = cfg.hi[i] =>
+\* (a single value has a declared range of at most one unit of the fixed point: floor and ceiling)
+C04Frozen == \A i \in H(cfg) : cfg.hi[i] - cfg.lo[i] <= 1 =>
                 (Fx(val[i]) >= cfg.lo[i] - Tol /\ Fx(val[i]) <= cfg.hi[i] + Tol)
 C08Chain == (pc = "done" /\ pc' = "new" /\ stage' = stage + 1) =>
                /\ val' = val
